@@ -166,6 +166,8 @@ def eval_case(case) -> Outcome:
             udts.append(u["dt_cont"])
     # a stream bound shifted by its own contribution, then a (default) utility placed its contribution + phase change beyond
     W = max(sdts) + max(udts) + float(opts.get("DT_PHASE_CHANGE", 0.1) if opts.get("DT_PHASE_CHANGE", 0.1) > 0 else 0.01) + 0.02 + 0.006
+    if opts.get("DT_PHASE_CHANGE", 0.1) <= 0:
+        out.labels.add("opt:DT_PHASE_CHANGE<=0")
     lo, hi = min(temps) - W, max(temps) + W
     for t in result.targets:
         for nm in ("cold_temp", "hot_temp"):
@@ -247,8 +249,8 @@ def wide_problem(draw, tier, hp=False):
         for f in draw(st.lists(st.sampled_from(WIRED_FLAGS), max_size=3, unique=True)):
             opts[f] = draw(st.booleans()) if f == "DO_BALANCED_CC" else True
         num = {
-            "DT_CONT": st.sampled_from([0.0, 2.5, 5.0, 10.0, 20.0]),
-            "DT_PHASE_CHANGE": st.sampled_from([0.01, 0.1, 0.5, 1.0]),
+            "DT_CONT": st.sampled_from([-1.0, 0.0, 2.5, 5.0, 10.0, 20.0]),  # negative values are sanitised to 0
+            "DT_PHASE_CHANGE": st.sampled_from([0.0, -1.0, 0.01, 0.1, 0.5, 1.0]),  # <= 0 is accepted and replaced by 0.01 by the option sanitiser
             "HTC": st.sampled_from([0.1, 1.0, 5.0, 10.0]),
             "UTILITY_PRICE": st.sampled_from([1.0, 40.0, 250.0]),
             "ANNUAL_OP_TIME": st.sampled_from([1000.0, 8300.0, 8760.0]),
@@ -282,4 +284,4 @@ PARTS = [
     Part("service", eval_case, {"quick": 1200, "thorough": 40000}, strategy=strategy, min_nontrivial={"quick": 500, "thorough": 15000}),
     Part("heat_pump_options", eval_case, {"quick": 8, "thorough": 160}, strategy=strategy_hp, min_nontrivial={"quick": 2, "thorough": 40}),
 ]
-MIN_SHARE = {"service": {"single-stream": 0.03, "only-hot": 0.05, "only-cold": 0.05, "isothermal": 0.1, "zero-contributions": 0.1, "duplicate-names": 0.2, "value-with-unit": 0.1, "mixed-spellings": 0.08, "explicit-zone-tree": 0.03}}
+MIN_SHARE = {"service": {"single-stream": 0.03, "only-hot": 0.05, "only-cold": 0.05, "isothermal": 0.1, "zero-contributions": 0.1, "duplicate-names": 0.2, "value-with-unit": 0.1, "mixed-spellings": 0.08, "explicit-zone-tree": 0.03, "opt:DT_PHASE_CHANGE<=0": 0.02}}
